@@ -43,4 +43,57 @@ PROPS = {
     },
 }
 
+
+
+def corr_multi(*fns):
+    """merge several correspondence runs into one summary"""
+    def run(tier, seed):
+        out = None
+        for f in fns:
+            r = f(tier, seed)
+            if out is None:
+                out = dict(r)
+                continue
+            for k in ('cases', 'distinct_cases', 'n_disagreements'):
+                out[k] = out.get(k, 0) + r.get(k, 0)
+            for k in ('disagreements', 'coq_errors', 'missing_functions', 'samples', 'functions'):
+                out[k] = list(out.get(k, []) or []) + list(r.get(k, []) or [])
+            rk = dict(out.get('result_kinds', {}))
+            for kk, vv in r.get('result_kinds', {}).items():
+                rk[kk] = rk.get(kk, 0) + vv
+            out['result_kinds'] = rk
+        return out
+    return run
+
+
+def corr_framework(n_quick, n_thorough):
+    def run(tier, seed):
+        import corr_framework as C
+        return C.run(seed, n_quick if tier == 'quick' else n_thorough)
+    return run
+
+
+CONV_FUNCS = ['normalize_bbox', 'denormalize_bbox', 'convert_bbox_to_dicaugment', 'convert_bbox_from_dicaugment',
+              'check_bbox', 'convert_keypoint_to_dicaugment', 'convert_keypoint_from_dicaugment', 'check_keypoint',
+              'angle_to_2pi_range', 'convert_bboxes_to_dicaugment', 'convert_bboxes_from_dicaugment',
+              'convert_keypoints_to_dicaugment', 'convert_keypoints_from_dicaugment']
+
+PROPS['C10'] = {
+    'requires': CONV_FUNCS,
+    'corr': corr_multi(corr_fn('C10', CONV_FUNCS, 40, 1500), corr_framework(150, 4000)),
+    'search': 'C10',
+    'trusted_base': ['coq/model/Framework.v is hand-written; tied to composition.py / BasicTransform.__call__ by '
+                     'the recorded-draw correspondence (harness/corr_framework.py)',
+                     'tuples of different lengths (keypoint formats) are modelled padded with zeros'],
+    'assumptions': ['valid = accepted by the input conversion (check_bbox / check_keypoint pass)',
+                    'input angle in [0, 360) degrees resp. [0, 2*pi) radians'],
+    'level_text': 'Round-trip identity of the box (3 formats) and keypoint (6 formats x 2 angle units) conversions is '
+                  'proved over the Gallina definitions regenerated from the source, for every frame size and every '
+                  'real-valued valid annotation; "no leaf fired => data returned unchanged" is proved for every '
+                  'operator tree, draw list and leaf semantics on the scheduling model. The pre/post-processing glue '
+                  'around an empty pipeline is exercised on the implementation by the search oracle.',
+    'level_note': 'Trusted: Coq kernel, translator, hand-written Framework model (validated by correspondence on '
+                  'recorded draws), exact-rational floats. Bit-identity of arrays is an implementation-side check.',
+}
+
 NOT_CLAIMED = {}
